@@ -165,3 +165,7 @@ func ClockRead() int64 { return timeNowNano() }
 
 // ClockStep makes the model clock strictly advance (natively: sleeps a microsecond).
 func ClockStep() { sleepMicro() }
+
+// ClockStepMax bounds how far the model clock may advance between two consecutive readings
+// in ClockAuto mode (engine only).
+func ClockStepMax(ns int64) {}
